@@ -5,6 +5,7 @@ import (
 	"go/ast"
 	"go/token"
 	"go/types"
+	"strings"
 
 	"golang.org/x/tools/go/types/typeutil"
 )
@@ -789,9 +790,13 @@ func (u *Unit) havocLoop(st *State, body ast.Node, extra []ast.Node, ls *LoopSpe
 		return true
 	})
 	defer u.assumeTypeInvs(st)
-	// ghost locals assigned at anchors may change in the body: forget them at the loop head
+	// ghost locals assigned at anchors inside the body may change there: forget them at the loop head
 	if u.c != nil {
-		for _, gas := range u.c.GhostAt {
+		inBody := u.anchorsIn(body, extra)
+		for anchor, gas := range u.c.GhostAt {
+			if !inBody(anchor) {
+				continue
+			}
 			for _, ga := range gas {
 				if id, ok := ga.LHS.(*ast.Ident); ok {
 					if old, ok := st.lets[id.Name]; ok && old.K == vScalar && old.S != "" {
@@ -1650,4 +1655,80 @@ func (u *Unit) goOrdOf(g *ast.GoStmt) int {
 		return true
 	})
 	return found
+}
+
+// anchorsIn decides whether a ghost anchor lies inside the given loop body (or its post statement). Anchors that cannot
+// be located syntactically (select arms, closures) count as inside.
+func (u *Unit) anchorsIn(body ast.Node, extra []ast.Node) func(string) bool {
+	ords := map[string]bool{}
+	loops := map[string]bool{}
+	rets := map[int]bool{}
+	lits := map[int]bool{}
+	vague := false
+	visit := func(n ast.Node) bool {
+		switch x := n.(type) {
+		case *ast.CallExpr:
+			if o, ok := u.callOrd[x]; ok {
+				ords[o] = true
+			}
+		case *ast.ForStmt, *ast.RangeStmt:
+			if id, ok := u.loopOrd[x.(ast.Stmt)]; ok {
+				loops[id] = true
+			}
+		case *ast.ReturnStmt:
+			if k, ok := u.retOrd[x]; ok {
+				rets[k] = true
+			}
+		case *ast.FuncLit:
+			if k, ok := u.litOrd[x]; ok {
+				lits[k] = true
+			}
+		case *ast.SelectStmt, *ast.GoStmt:
+			vague = true
+		}
+		return true
+	}
+	if body != nil {
+		ast.Inspect(body, visit)
+	}
+	for _, e := range extra {
+		if e != nil {
+			ast.Inspect(e, visit)
+		}
+	}
+	// the loop statement the body belongs to
+	for stmt, id := range u.loopOrd {
+		switch x := stmt.(type) {
+		case *ast.ForStmt:
+			if x.Body == body {
+				loops[id] = true
+			}
+		case *ast.RangeStmt:
+			if x.Body == body {
+				loops[id] = true
+			}
+		}
+	}
+	return func(anchor string) bool {
+		f := strings.Fields(anchor)
+		switch {
+		case anchor == "entry":
+			return false
+		case len(f) == 2 && (f[0] == "before" || f[0] == "after"):
+			return ords[f[1]]
+		case len(f) == 3 && (f[0] == "begin" || f[0] == "end") && f[1] == "loop":
+			return loops[f[2]]
+		case strings.HasPrefix(anchor, "return#") || strings.HasPrefix(anchor, "returned#"):
+			var k int
+			fmt.Sscanf(anchor[strings.Index(anchor, "#")+1:], "%d", &k)
+			return rets[k]
+		case len(f) == 3 && f[0] == "lit" && f[2] == "entry":
+			var k int
+			fmt.Sscanf(f[1], "%d", &k)
+			return lits[k]
+		case strings.HasPrefix(anchor, "go#") || strings.HasPrefix(anchor, "arm "):
+			return vague
+		}
+		return true
+	}
 }
